@@ -141,6 +141,19 @@ func c01Scenarios(tier string) []*Scenario {
 				}
 			}
 		}
+		// the call's context ends while a response is being decoded into the caller's message: whatever the call
+		// reports, nothing is written into that message once the call has returned
+		for _, rpc := range []RPC{
+			{Kind: "unary", Client: []string{"I"}, Handler: []string{"dec", "ret:ok"}},
+			{Kind: "ss", Client: []string{"S0", "C", "R*"}, Handler: []string{"r", "s0", "s1", "ret:ok"}},
+			{Kind: "cs", Client: []string{"S0", "C", "R*"}, Handler: []string{"r*", "s0", "ret:ok"}},
+		} {
+			sc := &Scenario{Prop: "C01", Name: "cancel|codec|" + rpcName(rpc), Transport: tr, Cancel: "cancel", RPCs: []RPC{rpc}, Bound: -1, Opts: "codec"}
+			if tr == "inproc" {
+				sc.Cloner = "yield"
+			}
+			out = append(out, sc)
+		}
 		// two RPCs at once with the decoder as a scheduling point: whatever the library recycles between calls
 		// (buffers, pooled objects) must not be handed on while a receiver is still decoding from it
 		{
@@ -173,7 +186,7 @@ func c01Oracle(sc *Scenario, rec *Rec, s *mc.Sched) []mc.Violation {
 			out = append(out, mc.Violation{Clause: clause, Obs: fmt.Sprintf("rpc%d: %s", i, obs), Detail: rr})
 		}
 		for _, m := range rr.Monitor {
-			if strings.HasPrefix(m, "prefix:") || strings.HasPrefix(m, "merge:") {
+			if strings.HasPrefix(m, "prefix:") || strings.HasPrefix(m, "merge:") || strings.HasPrefix(m, "late-write:") {
 				add(m[:strings.Index(m, ":")], m[strings.Index(m, ":")+1:])
 			}
 		}
